@@ -232,7 +232,7 @@ Proof.
     assert (Hpb1 : pausing c1 = pbt c1) by exact Hpb.
     assert (Hnt1 : timer_le (ntmo c1) (cT cf)) by (apply dec_le; exact Hnt).
     destruct p as [|snap j|snap].
-    + inversion H; subst. unfold rwf; cbn [core ph queue]. auto.
+    + inversion H; subst. unfold rwf; cbn [core ph queue]; repeat split; auto.
     + destruct Hph as (Hs & Hj). destruct j as [|[|k]].
       * eapply rd_wf; [exact H|auto|auto|exact Hs].
       * eapply rd_wf; [exact H|auto|auto|exact Hs].
@@ -247,7 +247,7 @@ Proof.
               unfold has_timer. cbn in Hnt1. cbn [tmo c2 upd_timers] in Ef2 |- *.
               destruct r' as [|r'']; [discriminate|].
               destruct (cT cf) eqn:ET; [lia|]. exists (S r''). split; [reflexivity|lia].
-        -- eapply on_timeout_wf; [exact H|exact Hpb1|exact Hnt1].
+        -- eapply on_timeout_wf; [exact H|exact Hpb1|rewrite En; exact I].
       * inversion H; subst. unfold rwf; cbn [core ph queue]. repeat split; auto.
         unfold has_timer in *. cbn [tmo c1 upd_timers] in Ef |- *.
         destruct (cT cf) eqn:ET.
@@ -256,10 +256,10 @@ Proof.
            exists (S r). split; [reflexivity|lia].
   - (* arrive *)
     destruct (stopped c) eqn:Est.
-    + inversion H; subst. unfold rwf; cbn [core ph queue]. auto.
+    + inversion H; subst. unfold rwf; cbn [core ph queue]; repeat split; auto.
     + destruct p as [|snap j|snap].
-      * inversion H; subst. unfold rwf; cbn [core ph queue]. auto.
-      * inversion H; subst. unfold rwf; cbn [core ph queue]. auto.
+      * inversion H; subst. unfold rwf; cbn [core ph queue]; repeat split; auto.
+      * inversion H; subst. unfold rwf; cbn [core ph queue]; repeat split; auto.
       * destruct Hph as (Hq & Hst & Hs & Hlt & Htm).
         eapply rd_wf; [exact H|auto|auto|]. cbn. auto.
   - (* pause *)
@@ -277,13 +277,13 @@ Proof.
     destruct Hph as (Hq & Hst & Hs & Hlt & Htm). repeat split; auto. discriminate.
   - (* stop *)
     destruct (stopped c) eqn:Est.
-    + inversion H; subst. unfold rwf; cbn [core ph queue]. auto.
-    + destruct p as [|snap j|snap]; inversion H; subst; unfold rwf; cbn [core ph queue]; auto.
+    + inversion H; subst. unfold rwf; cbn [core ph queue]; repeat split; auto.
+    + destruct p as [|snap j|snap]; inversion H; subst; unfold rwf; cbn [core ph queue]; repeat split; auto.
   - (* call *)
     destruct p as [|snap j|snap].
     + eapply rd_wf; [exact H| | |exact I]; cbn; auto.
-    + inversion H; subst. unfold rwf; cbn [core ph queue]. auto.
-    + inversion H; subst. unfold rwf; cbn [core ph queue]. auto.
+    + inversion H; subst. unfold rwf; cbn [core ph queue]; repeat split; auto.
+    + inversion H; subst. unfold rwf; cbn [core ph queue]; repeat split; auto.
 Qed.
 
 Lemma rinit_wf : rwf (rinit L).
